@@ -1047,4 +1047,82 @@ Proof.
   exists cl. split; [exact Hk|]. destruct b1; [exact HD | discriminate (Hb eq_refl)].
 Qed.
 
+
+(* ---- the descents are pairwise distinct when the universe lists have no repetition ------------ *)
+Lemma NoDup_app_disj : forall {A} (l m : list A), NoDup l -> NoDup m ->
+  (forall x, In x l -> In x m -> False) -> NoDup (l ++ m).
+Proof.
+  intros A l m Hl Hm Hd. induction Hl as [|a l Ha Hl IH]; cbn; [exact Hm|].
+  constructor.
+  - intros Hin. apply in_app_or in Hin. destruct Hin as [Hin|Hin]; [exact (Ha Hin)|].
+    exact (Hd a (or_introl eq_refl) Hin).
+  - apply IH. intros x Hx Hx'. exact (Hd x (or_intror Hx) Hx').
+Qed.
+
+Lemma NoDup_map_cons : forall {A} (a : A) (l : list (list A)), NoDup l -> NoDup (map (cons a) l).
+Proof.
+  intros A a l H. induction H as [|x l Hx Hl IH]; cbn; constructor; [|exact IH].
+  intros Hin. apply in_map_iff in Hin. destruct Hin as (y & Hy & Hin). inversion Hy; subst.
+  exact (Hx Hin).
+Qed.
+
+Lemma Paths_NoDup : forall s du, (forall u, NoDup (du_get u du)) ->
+  (forall key chs, Paths s du key chs ->
+     NoDup chs /\ forall ch, In ch chs -> exists r, ch = key :: r) /\
+  (forall l chss, PathsL s du l chss -> NoDup l ->
+     NoDup (concat chss) /\ forall ch, In ch (concat chss) -> exists c r, ch = c :: r /\ In c l).
+Proof.
+  intros s du Hdu.
+  apply (Paths_PathsL_ind T surf s du
+           (fun key chs _ => NoDup chs /\ forall ch, In ch chs -> exists r, ch = key :: r)
+           (fun l chss _ => NoDup l ->
+              NoDup (concat chss) /\
+              forall ch, In ch (concat chss) -> exists c r, ch = c :: r /\ In c l)).
+  - intros key cl Hk Hf. split.
+    + constructor; [intros []|constructor].
+    + intros ch [<-|[]]. exists []. reflexivity.
+  - intros key cl u chss Hk Hf HPL IH. destruct (IH (Hdu u)) as [Hnd _]. split.
+    + apply NoDup_map_cons. exact Hnd.
+    + intros ch Hin. apply in_map_iff in Hin. destruct Hin as (r & <- & _). exists r. reflexivity.
+  - intros _. split; [constructor | intros ch []].
+  - intros c cs chs chss HP [IH1 IH1'] HPL IH2 Hnd. inversion Hnd as [|c' cs' Hc Hcs]; subst.
+    destruct (IH2 Hcs) as [IH2a IH2b]. cbn [concat]. split.
+    + apply NoDup_app_disj; [exact IH1 | exact IH2a|].
+      intros ch H1 H2. destruct (IH1' ch H1) as (r & ->).
+      destruct (IH2b _ H2) as (c0 & r0 & E & Hin). inversion E; subst. exact (Hc Hin).
+    + intros ch Hin. apply in_app_or in Hin. destruct Hin as [Hin|Hin].
+      * destruct (IH1' ch Hin) as (r & ->). exists c, r. split; [reflexivity | left; reflexivity].
+      * destruct (IH2b ch Hin) as (c0 & r0 & E & Hin0). exists c0, r0. split; [exact E | right; exact Hin0].
+Qed.
+
+(* by_universe lists every key at most once when the table has no duplicate key (a Python dict) *)
+Lemma by_universe_NoDup : forall (cells : list (Z * cell)) u,
+  NoDup (map fst cells) -> NoDup (du_get u (by_universe cells)).
+Proof.
+  intros cells u. unfold by_universe.
+  assert (G : forall l acc, NoDup (map fst l) -> NoDup (du_get u acc) ->
+                (forall c, In c (du_get u acc) -> ~ In c (map fst l)) ->
+                NoDup (du_get u (fold_left
+                  (fun du0 (kc : Z * cell) => dappend (c_univ (snd kc)) (fst kc) du0) l acc))).
+  { induction l as [|[k cl] r IH]; intros acc Hnd Hacc Hdis; cbn in *; [exact Hacc|].
+    inversion Hnd as [|k' r' Hk Hr]; subst.
+    assert (Hstep : forall c, In c (du_get u (dappend (c_univ cl) k acc)) -> In c (du_get u acc) \/ c = k).
+    { intros c Hc. exact (dappend_In _ _ _ _ _ Hc). }
+    apply IH; [exact Hr | |].
+    - unfold dappend, du_get in *.
+      destruct (dget (c_univ cl) acc) as [l0|] eqn:E.
+      + destruct (Z.eq_dec u (c_univ cl)) as [->|Hne].
+        * rewrite dget_dset_same. rewrite E in Hacc, Hdis.
+          apply NoDup_app_disj; [exact Hacc | constructor; [intros []|constructor]|].
+          intros x Hx [<-|[]]. exact (Hdis k Hx (or_introl eq_refl)).
+        * rewrite dget_dset_other by exact Hne. exact Hacc.
+      + destruct (Z.eq_dec u (c_univ cl)) as [->|Hne].
+        * rewrite dget_dset_same. constructor; [intros []|constructor].
+        * rewrite dget_dset_other by exact Hne. exact Hacc.
+    - intros c Hc Hin. destruct (Hstep c Hc) as [Hc'| ->].
+      + exact (Hdis c Hc' (or_intror Hin)).
+      + exact (Hk Hin). }
+  intros Hnd. apply G; [exact Hnd | constructor | intros c []].
+Qed.
+
 End Proofs.
